@@ -113,7 +113,7 @@ func (x *g) arg() *rt.Term {
 	return x.term(1)
 }
 
-var libNames = map[string]bool{"app": true, "mem": true, "nat": true, "len": true}
+var libNames = map[string]bool{"app": true, "mem": true, "nat": true, "len": true, "cnt": true}
 
 // groundish builds a small proper list or Peano numeral (arguments that make the library templates terminate).
 func (x *g) groundish(peano bool) *rt.Term {
@@ -153,7 +153,7 @@ func (x *g) userCall() *rt.Term {
 			}
 		case "mem":
 			args[1] = x.groundish(false)
-		case "nat":
+		case "nat", "cnt":
 			args[0] = x.groundish(true)
 		case "len":
 			if x.p(50, "lenmode") {
@@ -225,6 +225,12 @@ func (x *g) goal(d int) *rt.Term {
 			default:
 				return rt.C("call", x.v())
 			}
+		}},
+		{x.f.Ite && x.f.Call, func() *rt.Term {
+			// if-then-else whose (If -> Then) part reaches call/1 through a variable bound beforehand
+			gv := x.v()
+			return rt.C(",", rt.C("=", gv, rt.C("->", x.conj(d-1, 2, false), x.conj(d-1, 2, false))),
+				rt.C("call", rt.C(";", gv, x.conj(d-1, 2, false))))
 		}},
 		{x.f.Ite, func() *rt.Term {
 			if x.p(30, "ifthen") {
@@ -401,7 +407,11 @@ func (x *g) clause(s sig) *rt.Term {
 		return head
 	}
 	if x.f.TopDisj && x.p(25, "topdisj") {
-		return rt.C(":-", head, rt.C(";", x.conj(1, 2, x.f.Cut), x.conj(1, 2, x.f.Cut)))
+		left, right := x.conj(1, 2, x.f.Cut), x.conj(1, 2, x.f.Cut)
+		if left.Is("->", 2) { // (C -> T ; E) is if-then-else, not a disjunction: its branches must not hold a bare cut
+			left = rt.C(",", rt.A("true"), left)
+		}
+		return rt.C(":-", head, rt.C(";", left, right))
 	}
 	return rt.C(":-", head, x.conj(2, 3, x.f.Cut))
 }
@@ -411,6 +421,17 @@ var libs = map[string][]string{
 	"mem/2": {"mem(X, [X|_])", "mem(X, [_|T]) :- mem(X, T)"},
 	"nat/1": {"nat(z)", "nat(s(X)) :- nat(X)"},
 	"len/2": {"len([], z)", "len([_|T], s(N)) :- len(T, N)"},
+}
+
+// cutLibs are templates with cuts: first solution, recursion with a cut in the recursive clause,
+// repeat ... !, cut after two nondeterministic goals, cut in the last clause, double cut.
+var cutLibs = map[string][]string{
+	"fst/1": {"fst(X) :- n(X), !", "fst(0)"},
+	"cnt/1": {"cnt(z)", "cnt(s(N)) :- n(_), !, cnt(N)", "cnt(s(s(_)))"},
+	"rp/1":  {"rp(X) :- repeat, n(X), X = 2, !"},
+	"mx/2":  {"mx(X, Y) :- n(X), m(Y), !", "mx(0, c)"},
+	"lst/1": {"lst(a)", "lst(X) :- m(X), !"},
+	"dbl/1": {"dbl(X) :- n(X), !, m(_), !", "dbl(7)"},
 }
 
 // GenProgram generates a program and a query for the given feature set.
@@ -438,6 +459,18 @@ func GenProgram(f Features) *rapid.Generator[*Program] {
 					fmt.Sscanf(name[strings.Index(name, "/")+1:], "%d", &ar)
 					x.sigs = append(x.sigs, sig{name[:strings.Index(name, "/")], ar})
 					for _, src := range libs[name] {
+						libClauses = append(libClauses, MustParse(src))
+					}
+				}
+			}
+		}
+		if f.Cut && x.p(60, "cutlib") {
+			for _, name := range []string{"fst/1", "cnt/1", "rp/1", "mx/2", "lst/1", "dbl/1"} {
+				if x.p(35, "cutlib:"+name) {
+					var ar int
+					fmt.Sscanf(name[strings.Index(name, "/")+1:], "%d", &ar)
+					x.sigs = append(x.sigs, sig{name[:strings.Index(name, "/")], ar})
+					for _, src := range cutLibs[name] {
 						libClauses = append(libClauses, MustParse(src))
 					}
 				}
@@ -473,8 +506,17 @@ func GenProgram(f Features) *rapid.Generator[*Program] {
 	})
 }
 
-// Vars returns the query's variable ids in order of first occurrence.
-func (p *Program) Vars() []int64 { return p.Query.Vars(nil) }
+// Vars returns the query's variable ids in order of first occurrence. Ids >= 900 are anonymous
+// (they stand for '_': e.g. the context argument of error/2 in a catcher) and are not part of the answer.
+func (p *Program) Vars() []int64 {
+	var out []int64
+	for _, id := range p.Query.Vars(nil) {
+		if id < 900 {
+			out = append(out, id)
+		}
+	}
+	return out
+}
 
 // ClauseText renders one clause as source text (variables named per clause).
 func ClauseText(c *rt.Term) string {
@@ -524,10 +566,13 @@ func (p *Program) Grouped() []*rt.Term {
 
 // QueryText renders the query with variables named Q<id>; returns the text and the names in order.
 func (p *Program) QueryText() (string, []string) {
-	ids := p.Vars()
 	names := map[int64]string{}
 	var ns []string
-	for _, id := range ids {
+	for _, id := range p.Query.Vars(nil) {
+		if id >= 900 {
+			names[id] = fmt.Sprintf("_A%d", id)
+			continue
+		}
 		names[id] = fmt.Sprintf("Q%d", id)
 		ns = append(ns, names[id])
 	}
